@@ -180,7 +180,7 @@ func check(c Case) vrep.Result {
 	sim.Set(0, prefix+"/actor", vsim.JSON(string(aj)))
 
 	hook := append([]string{}, c.Hook...)
-	config.Parsed.Media.Hook = hook
+	config.Parsed.Media.Hook = append([]string{}, c.Hook...) // a copy of its own: the expectation must not share memory with the configuration
 	config.Parsed.Network.Context = 2
 	classes := []string{"program:" + c.Hook[0]}
 	d := vui.NewDriver(100, 30)
@@ -289,7 +289,7 @@ var linkPool = []string{"https://x.test/plain", "https://x.test/a b c", "https:/
 	"-rf", "--help", "%url", "%mimetype", "https://x.test/;rm -rf ~", "https://x.test/a|b&c", "https://x.test/%url", "https://x.test/a\nb", "https://x.test/*?[]", "relative/path",
 	"mailto:someone@x.test", "https://x.test/ünï", "https://x.test/" + strings.Repeat("long", 1500), "javascript:alert(1)", "https://x.test/$HOME/${IFS}", "https://x.test/\\n\\0"}
 
-var mtPool = []string{"", "image/png", "video/mp4", "audio/ogg", "text/html; charset=utf-8", "application/x-weird+thing", "image/*", "IMAGE/PNG"}
+var mtPool = []string{"image/%url", "%subtype/png", "%url/%mimetype", "video/%supertype", "", "image/png", "video/mp4", "audio/ogg", "text/html; charset=utf-8", "application/x-weird+thing", "image/*", "IMAGE/PNG"}
 
 func genAtt(t *rapid.T, types []string) Att {
 	return Att{Type: rapid.SampledFrom(types).Draw(t, "atttype"), URL: rapid.SampledFrom(linkPool).Draw(t, "atturl"), MediaType: rapid.SampledFrom(mtPool).Draw(t, "attmt")}
